@@ -298,6 +298,86 @@ static std::string real_bytes(Rng& g, unsigned& ty) {
     return hex_bytes(b.data(), b.size());
 }
 
+// ---- second generator for `ord` (added with coq/OasisReal2Proofs.v): the case classes its theorems split on.
+//   types 4 / 5: operands above 2^53 (rounded before the division), denominator 0 (inf / NaN), numerator 0 (type 5: -0.0),
+//                operands spelled with redundant zero groups (any legal encoding of at most 10 bytes), n / 1 and 1 / n;
+//   type 6: subnormal singles, both zeros, both infinities, quiet / signalling NaNs, extremes; fewer than 4 bytes;
+//   types 0-3 with padded integers (the forms the ratio spellings are compared with).
+static void put_uint_spelled(Rng& g, std::vector<uint8_t>& b, uint64_t v, bool pad) {
+    std::vector<uint8_t> grp;
+    do {
+        grp.push_back((uint8_t)(v & 0x7F));
+        v >>= 7;
+    } while (v);
+    if (pad && grp.size() < 10) {
+        size_t extra = (size_t)g.below(10 - grp.size() + 1);
+        for (size_t i = 0; i < extra; i++) grp.push_back(0);
+    }
+    for (size_t i = 0; i < grp.size(); i++) b.push_back((uint8_t)(grp[i] | (i + 1 < grp.size() ? 0x80 : 0)));
+}
+
+static uint64_t ratio_operand(Rng& g, Out& out, const char* which) {
+    switch (g.below(8)) {
+        case 0: out.count(std::string("ord2:") + which + ":zero"); return 0;
+        case 1: out.count(std::string("ord2:") + which + ":one"); return 1;
+        case 2: out.count(std::string("ord2:") + which + ":below-2^53"); return g.next() >> (11 + g.below(53));
+        case 3: out.count(std::string("ord2:") + which + ":tie-above-2^53"); return (((uint64_t)1 << 53) | (g.next() & 0xFFFF)) << g.below(11) | g.below(2);
+        case 4: out.count(std::string("ord2:") + which + ":above-2^53"); return g.next() | ((uint64_t)1 << (53 + g.below(11)));
+        case 5: out.count(std::string("ord2:") + which + ":max"); return 0xFFFFFFFFFFFFFFFFULL - g.below(3);
+        case 6: out.count(std::string("ord2:") + which + ":small"); return g.below(1000);
+        default: out.count(std::string("ord2:") + which + ":power-of-two"); return (uint64_t)1 << g.below(64);
+    }
+}
+
+static uint32_t float_pattern(Rng& g, Out& out) {
+    uint32_t sign = (uint32_t)g.below(2) << 31;
+    switch (g.below(10)) {
+        case 0: out.count("ord2:f32:zero"); return sign;
+        case 1: out.count("ord2:f32:subnormal"); return sign | (uint32_t)(1 + g.below((1u << 23) - 1));
+        case 2: out.count("ord2:f32:subnormal-extreme"); return sign | (g.coin() ? 1u : 0x007FFFFFu);
+        case 3: out.count("ord2:f32:infinity"); return sign | 0x7F800000u;
+        case 4: out.count("ord2:f32:quiet-nan"); return sign | 0x7FC00000u | (uint32_t)g.below(1u << 22);
+        case 5: out.count("ord2:f32:signalling-nan"); return sign | 0x7F800000u | (uint32_t)(1 + g.below((1u << 22) - 1));
+        case 6: out.count("ord2:f32:extreme-normal"); return sign | (g.coin() ? 0x00800000u : 0x7F7FFFFFu);
+        case 7: out.count("ord2:f32:power-of-two"); return sign | ((uint32_t)(1 + g.below(254)) << 23);
+        default: out.count("ord2:f32:normal"); return sign | ((uint32_t)(1 + g.below(254)) << 23) | (uint32_t)g.below(1u << 23);
+    }
+}
+
+static std::string real_bytes2(Rng& g, Out& out, unsigned& ty) {
+    std::vector<uint8_t> b;
+    bool pad = g.chance(50);
+    switch (g.below(8)) {
+        case 0:
+        case 1:
+        case 2: {  // ratio
+            ty = 4 + (unsigned)g.below(2);
+            uint64_t num = ratio_operand(g, out, "num"), den = ratio_operand(g, out, "den");
+            if (g.chance(15)) { den = 1; out.count("ord2:ratio:n-over-1"); }
+            else if (g.chance(15)) { num = 1; out.count("ord2:ratio:1-over-n"); }
+            put_uint_spelled(g, b, num, pad);
+            put_uint_spelled(g, b, den, pad);
+            if (pad) out.count("ord2:ratio:padded-spelling");
+        } break;
+        case 3: {  // integer / reciprocal forms with the same operands and spellings
+            ty = (unsigned)g.below(4);
+            put_uint_spelled(g, b, ratio_operand(g, out, "int"), pad);
+        } break;
+        default: {
+            ty = 6;
+            uint32_t u = float_pattern(g, out);
+            for (int i = 0; i < 4; i++) b.push_back((uint8_t)(u >> (8 * i)));
+        }
+    }
+    b.push_back((uint8_t)g.below(256));  // something follows
+    if (g.chance(6)) {                   // truncated
+        size_t cut = 1 + (size_t)g.below(4);
+        while (cut-- && !b.empty()) b.pop_back();
+        out.count("ord2:truncated");
+    }
+    return hex_bytes(b.data(), b.size());
+}
+
 int main(int argc, char** argv) {
     if (argc < 4) {
         fprintf(stderr, "usage: c19_real seed tier outdir [corpus] [replay]\n");
@@ -348,6 +428,21 @@ int main(int argc, char** argv) {
                                 -2.5, 1e-17, 1e300, 1e-300, 18446744073709551615.0, 9007199254740993.0, 4.5e15 + 0.5};
     for (double v : oas_fixed) run_case(out, "orw", hex_dbl(v));
     for (unsigned ty = 0; ty <= 9; ty++) run_case(out, "ord", std::to_string(ty) + " 0a0b0c0d0e0f01020304");
+    // fixed `ord` cases for the ratio / single-precision theorems: x / 0, 0 / 0, -0 / n, operands above 2^53,
+    // padded spellings, n / 1, 1 / n; singles: +-0, +-inf, NaNs, smallest / largest subnormal, FLT_MIN, FLT_MAX, 0.75f
+    {
+        const char* fixed[] = {
+            "4 070055", "5 070055", "4 000055", "5 000055", "5 000355", "4 808000808080008055", "4 0055", "4 07",
+            "4 ffffffffffffffffff01ffffffffffffffffff0155", "5 ffffffffffffffffff010155", "4 01ffffffffffffffffff0155",
+            "4 8180808080808080100355", "5 8180808080808080100355", "4 83000455", "4 8300840055", "4 010355", "5 010355",
+            "4 8380808080808080800081808080808080808000", "4 83808080808080808080008155",
+            "0 8380808080808080800055", "2 8380808080808080800055", "4 0701", "0 07", "4 0107", "2 07", "5 0701", "1 07", "5 0107", "3 07",
+            "6 0000000055", "6 0000008055", "6 0000807f55", "6 000080ff55", "6 0000c07f55", "6 0000c0ff55", "6 0100807f55",
+            "6 0100000055", "6 0100008055", "6 ffff7f0055", "6 0000800055", "6 ffff7f7f55", "6 ffff7fff55", "6 0000403f55",
+            "6 000040", "6 0000", "6 00", "6 ",
+        };
+        for (const char* f : fixed) run_case(out, "ord", f);
+    }
     long N = thorough ? 600000 : 6000;
     for (long i = 0; i < N; i++) {
         switch (g.below(10)) {
@@ -378,6 +473,15 @@ int main(int argc, char** argv) {
                 std::string b = real_bytes(g, ty);
                 run_case(out, "ord", std::to_string(ty) + " " + b);
             }
+        }
+    }
+    {
+        Rng g2(seed * 0x100000001B3ULL + 12345);
+        long N2 = thorough ? 200000 : 3000;
+        for (long i = 0; i < N2; i++) {
+            unsigned ty;
+            std::string b = real_bytes2(g2, out, ty);
+            run_case(out, "ord", std::to_string(ty) + " " + b);
         }
     }
     out.close();
